@@ -15,7 +15,7 @@
 //	select           select{...} -> switch over vsel.Wait(...), bodies untouched
 //	yield            vsel.Yield("file:line") after every statement that can wake another goroutine
 //	                 (close(ch), ch <- v, go f(), x.Unlock(), x.RUnlock(), x.Done(), x.Signal(),
-//	                 x.Broadcast(), x.Close(..)) and inside `defer close(ch)` / `defer x.Done()`:
+//	                 x.Broadcast(), x.Close(..), receives, the chosen case of a select) and inside `defer close(ch)`:
 //	                 preemption points for the explorer (the current goroutine steps aside and the
 //	                 goroutine it has just made runnable runs first)
 //
@@ -374,13 +374,23 @@ func (y *yieldRewriter) fixList(list []ast.Stmt) []ast.Stmt {
 		switch x := st.(type) {
 		case *ast.ExprStmt:
 			out = append(out, st)
-			if y.isWakeCall(x.X) {
+			if ue, ok := x.X.(*ast.UnaryExpr); ok && ue.Op == token.ARROW {
+				out = append(out, y.yieldStmt(x.Pos()))
+			} else if y.isWakeCall(x.X) {
 				out = append(out, y.yieldStmt(x.Pos()))
 			}
 			continue
 		case *ast.SendStmt:
 			out = append(out, st, y.yieldStmt(x.Pos()))
 			continue
+		case *ast.AssignStmt:
+			// v := <-ch / v, ok = <-ch : a receive can wake a blocked sender
+			if len(x.Rhs) == 1 {
+				if ue, ok := x.Rhs[0].(*ast.UnaryExpr); ok && ue.Op == token.ARROW {
+					out = append(out, st, y.yieldStmt(x.Pos()))
+					continue
+				}
+			}
 		case *ast.GoStmt:
 			out = append(out, st, y.yieldStmt(x.Pos()))
 			continue
@@ -412,6 +422,10 @@ func (y *yieldRewriter) run(f *ast.File) {
 			x.Body = y.fixList(x.Body)
 		case *ast.CommClause:
 			x.Body = y.fixList(x.Body)
+			// a send or receive chosen by a select wakes the peer blocked on that channel
+			if x.Comm != nil {
+				x.Body = append([]ast.Stmt{y.yieldStmt(x.Pos())}, x.Body...)
+			}
 		}
 		return true
 	})
